@@ -4,6 +4,7 @@ CONSTANTS
   Zero = 0
   EmitEdges = FALSE
   Mutant = "none"
+  CarryAll = FALSE
   Annot = {1, 2}
   Times = {0, 1, 2}
   Labels = {0, 1, 2}
